@@ -8,8 +8,9 @@ Inductive c02_case :=
 (* onchain.ParamsToTxScript on hex strings; obs = None when an error was returned *)
 | CScript (taker_hex maker_hex hash_hex : string) (csv : Z) (obs : option bytes)
 (* witness script behind the output script of a chain (0 bitcoin v7, 1 liquid v7,
-   2 liquid v6, 3 bitcoin v6) for real keys, and the CSV of the node's timelock policy *)
-| CChain (chain : N) (taker maker phash : bytes) (obs_policy_csv : Z) (obs_script : bytes)
+   2 liquid v6, 3 bitcoin v6) for real keys, the CSV of the node's timelock policy, and whether
+   the address funded when the opening tx is created has that same output script *)
+| CChain (chain : N) (taker maker phash : bytes) (obs_policy_csv : Z) (obs_created_same : bool) (obs_script : bytes)
 (* btcd engine verdicts: the witness stacks (lists of item tags, first item first)
    that were accepted among ALL stacks of at most [maxlen] tagged items *)
 | CEngine (chain flagset hmode keymode : N) (sq txver : Z) (maxlen : nat) (obs_accepted : list (list N)).
@@ -107,8 +108,8 @@ Definition model_accept (chain flagset hmode keymode : N) (sq txver : Z) (s : li
 Definition c02_check (c : c02_case) : bool :=
   match c with
   | CScript t m h csv obs => opt_eqb bytes_eqb (params_to_tx_script t m h csv) obs
-  | CChain chain t m h pcsv obs =>
-      opt_eqb (list_eqb op_eqb) (disassemble obs) (Some (gen_script_of chain t m h))
+  | CChain chain t m h pcsv same obs =>
+      same && opt_eqb (list_eqb op_eqb) (disassemble obs) (Some (gen_script_of chain t m h))
       && bytes_eqb obs (sb_script (get_opening_tx_script t m h (gen_csv_of chain)))
       && negb (sb_err (get_opening_tx_script t m h (gen_csv_of chain)))
       && (pcsv =? gen_policy_csv_of chain)
@@ -161,8 +162,8 @@ Definition c02_monitor (c : c02_case) : bool :=
       | None => true
       | Some b => match disassemble b with Some _ => true | None => false end
       end
-  | CChain chain _ _ _ pcsv obs =>
-      (pcsv =? text_csv chain) &&
+  | CChain chain _ _ _ pcsv same obs =>
+      same && (pcsv =? text_csv chain) &&
       match disassemble obs with
       | Some ops => opt_eqb Z.eqb (script_csv ops) (Some (text_csv chain))
       | None => false
